@@ -452,16 +452,45 @@ class _FuncAnalysis:
                     return _T(tt.comparators[0])
             return None
 
+        # a local bound once, in the function's own block, to a class test of never-reassigned names stands for that test
+        # (`is_object = isinstance(value, ObjectValue)` ... `elif is_object:`)
+        named_tests = getattr(self, "_named_tests", None)
+        if named_tests is None and isinstance(self.fi.node, ast.Lambda):
+            named_tests = self._named_tests = {}
+        if named_tests is None:
+            named_tests = self._named_tests = {}
+            stores = {}
+            for n in ast.walk(self.fi.node):
+                if isinstance(n, ast.Name) and isinstance(n.ctx, ast.Store):
+                    stores[n.id] = stores.get(n.id, 0) + 1
+            for st in self.fi.node.body:
+                if isinstance(st, ast.Assign) and len(st.targets) == 1 and isinstance(st.targets[0], ast.Name) and stores.get(st.targets[0].id) == 1 \
+                        and not any(isinstance(x, ast.Name) and stores.get(x.id) for x in ast.walk(st.value)):
+                    named_tests[st.targets[0].id] = st.value
+
+        def unalias(tt):
+            seen = 0
+            while True:
+                if isinstance(tt, ast.Name) and tt.id in named_tests and seen < 4:
+                    tt = named_tests[tt.id]
+                    seen += 1
+                    continue
+                return tt
+        _is_test = is_test
+
+        def is_test(tt):          # noqa: F811
+            return _is_test(unalias(tt))
+
         cur = expr
         while getattr(cur, "_parent", None) is not None and cur is not self.fi.node:
             par = cur._parent
             if isinstance(par, (ast.If, ast.IfExp)) and cur is not par.test:
                 body = par.body if isinstance(par.body, list) else [par.body]
                 in_body = any(cur is b for b in body)
-                t0 = par.test
+                t0 = unalias(par.test)
                 neg = False
                 if isinstance(t0, ast.UnaryOp) and isinstance(t0.op, ast.Not):
-                    t0, neg = t0.operand, True
+                    t0, neg = unalias(t0.operand), True
                 tests = t0.values if isinstance(t0, ast.BoolOp) and isinstance(t0.op, ast.And) and not neg else [t0]
                 for tt in tests:
                     tt = is_test(tt)
@@ -488,7 +517,7 @@ class _FuncAnalysis:
                         if st is cur:
                             break
                         if isinstance(st, ast.If) and not st.orelse and st.body and isinstance(st.body[-1], (ast.Return, ast.Raise, ast.Continue, ast.Break)):
-                            t0 = st.test
+                            t0 = unalias(st.test)
                             neg = False
                             if isinstance(t0, ast.UnaryOp) and isinstance(t0.op, ast.Not):
                                 t0, neg = t0.operand, True
